@@ -773,9 +773,14 @@ pub fn gen_run(property: &str, seed: u64, p: &Profile) -> RunSpec {
     let mut bulk_keys: Vec<Bytes> = Vec::new();
     if p.bulk_prelude && r.chance(1, 4) {
         let n = 260 + r.usize(200);
+        // half of the bulk runs use long keys: index entries of ~100 bytes fill the 4 KiB index
+        // and filter partitions, so partitioned tables really get several partitions
+        let pad = if r.chance(1, 2) { 40 + r.usize(60) } else { 0 };
         let mut items = Vec::with_capacity(n);
         for i in 0..n {
-            let k = Bytes(format!("b{i:04}").into_bytes());
+            let mut kb = format!("b{i:04}").into_bytes();
+            kb.extend(std::iter::repeat(b'x').take(pad));
+            let k = Bytes(kb);
             st.next_value_id += 1;
             items.push(WriteItem {
                 k: k.clone(),
